@@ -66,6 +66,12 @@ try:
             if parts[i] == ".." and rng.random() < 0.6:
                 parts[i] = rng.choice(["..", ".\x01.", ". .", "...", ".\n.", "..\x02", "\x03.."])
         names.append(rng.choice(["", "/", "./", ":"]) + rng.choice(["/", ":", "//"]).join(parts))
+    # the same names behind the local Module: prefix (as #invoke and require('Module:...') write them), in every
+    # spelling of the prefix
+    base_names = list(names) if tier != "quick" else names[:25] + rng.sample(names[25:], 400)
+    ns_name = ctx.NAMESPACE_DATA["Module"]["name"]
+    for pre in (ns_name + ":", ns_name.lower() + ":", ns_name + ": ", ns_name + ":/", ns_name + "::"):
+        names += [pre + n_ for n_ in (base_names if pre == ns_name + ":" else base_names[:25])]
     for name in names:
         del opened[:]
         evaluations += 1
